@@ -251,7 +251,8 @@ static void plusRecord(const Prob& P, const std::string& tag) {
     bool onlyUncond = P.uni.empty();
     std::vector<double> rhs = rhsOf(P);
     double scale = 1; for (double x : rhs) scale = std::max(scale, std::fabs(x));
-    const double ctol = 1e-7;
+    const double ctol = 4e-6;      // the exact contract is evaluated at a tolerance above every PLUS predicate bound, so a rejection
+                                    // by the contract is always accompanied by a keyed predicate failure
     vh::Line in = vh::I("plus"); encode(in, P); in.d(onlyUncond ? 1 : 0).d(ctol).d(scale);
     if (R.exc.empty()) for (double x : R.pi) in.d(x); else for (int r = 0; r < P.m; ++r) in.d(NAN);
     in.emit();
